@@ -208,12 +208,10 @@ Definition expected_value (kind : Z) (k : Z) (v : val) : option val :=
   end.
 
 (* [Some e]: the case is in the claimed family and [e] is the value parsing must return *)
-Definition claim (kind : Z) (v : val) (fmt tail : bytes) : option val :=
-  if negb (utf8_ok fmt) then None else
+Definition claim_toks (kind : Z) (v : val) (l : list tok) (tail : bytes) : option val :=
   match sval_of kind v with
   | None => None
   | Some sv =>
-      let l := expand_iso (tokens fmt) in
       if has_err l then None else
       match render_list sv l with
       | None => None
@@ -222,6 +220,70 @@ Definition claim (kind : Z) (v : val) (fmt tail : bytes) : option val :=
           then expected_value kind (frac_digits_kept l) v else None
       end
   end.
+Definition claim (kind : Z) (v : val) (fmt tail : bytes) : option val :=
+  if negb (utf8_ok fmt) then None else claim_toks kind v (expand_iso (tokens fmt)) tail.
+
+(** explicit item lists (fp.irt / fp.iparse), in the canonical item encoding of the case protocol:
+    the documented meaning of each public item (docs of `Numeric`, `Fixed`, `Item` in
+    src/format/mod.rs) as tokens.  `Fixed::RFC3339` is the documented expansion of %+;
+    `Fixed::RFC2822` ("RFC 2822 date and time syntax", e.g. `Tue, 1 Jul 2003 10:52:37 +0200`) is
+    `%a, %-d %b %Y %H:%M:%S %z` and exists for years 0..9999 only; the ISO century, the `Z`
+    offset items and items whose white-space text is not plain ASCII white space: no claim. *)
+Definition nfield_of_code (k : Z) : option nfield :=
+  find (fun f => nfield_code f =? k)
+       [NYear; NCentury; NYearMod100; NIsoYear; NIsoYearMod100; NQuarter; NMonth; NDay; NWeekSun; NWeekMon; NIsoWeek;
+        NWdaySun0; NWdayMon1; NOrdinal; NHour; NHour12; NMinute; NSecond; NNanos; NTimestamp].
+Definition dpad_of_code (k : Z) : option dpad :=
+  if k =? 0 then Some DNone else if k =? 1 then Some DZero else if k =? 2 then Some DSpace else None.
+Definition ascii_space (c : Z) : bool := (c =? 32) || ((9 <=? c) && (c <=? 13)).
+Definition rfc2822_expansion : bytes := B"%a, %-d %b %Y %H:%M:%S %z".
+(* tokens of one item, and whether the item restricts the year to 0..9999 *)
+Definition toks_of_item (v : val) : list tok * bool :=
+  match v with
+  | VTup [VInt 0; VStr s] =>
+      (* a literal that begins with white space (or a non-ASCII character, which may be white space)
+         can be eaten by a preceding white-space item: no claim *)
+      (match s with
+       | c :: _ => if ascii_space c || (127 <? c) then [KErr] else [KText s]
+       | [] => [KText s]
+       end, false)
+  | VTup [VInt 1; VStr s] => (if forallb ascii_space s then [KText s] else [KErr], false)
+  | VTup [VInt 2; VInt n; VInt p] =>
+      (match nfield_of_code n, dpad_of_code p with Some f, Some q => [KNum f q] | _, _ => [KErr] end, false)
+  | VTup [VInt 3; VInt f] =>
+      if f =? 0 then ([KFix TMonthAbbr], false) else if f =? 1 then ([KFix TMonthFull], false)
+      else if f =? 2 then ([KFix TWdayAbbr], false) else if f =? 3 then ([KFix TWdayFull], false)
+      else if f =? 4 then ([KFix TAmPmLower], false) else if f =? 5 then ([KFix TAmPmUpper], false)
+      else if f =? 6 then ([KFix TFracAuto], false) else if f =? 7 then ([KFix (TFrac 3 true)], false)
+      else if f =? 8 then ([KFix (TFrac 6 true)], false) else if f =? 9 then ([KFix (TFrac 9 true)], false)
+      else if f =? 10 then ([KFix TZoneName], false) else if f =? 11 then ([KFix TOffColon], false)
+      else if f =? 12 then ([KFix TOffColonSec], false) else if f =? 13 then ([KFix TOffHours], false)
+      else if f =? 15 then ([KFix TOff], false)
+      else if f =? 17 then (tokens rfc2822_expansion, true)
+      else if f =? 18 then (tokens iso_expansion, false)
+      else if f =? 100 then ([KFix TOffPermissive], false)
+      else if f =? 101 then ([KFix (TFrac 3 false)], false) else if f =? 102 then ([KFix (TFrac 6 false)], false)
+      else if f =? 103 then ([KFix (TFrac 9 false)], false)
+      else ([KErr], false)
+  | _ => ([KErr], false)
+  end.
+Fixpoint toks_of_items (l : list val) : list tok * bool :=
+  match l with
+  | [] => ([], false)
+  | v :: r => let '(a, x) := toks_of_item v in let '(b, y) := toks_of_items r in (a ++ b, x || y)
+  end.
+Definition claim_items (kind : Z) (v : val) (items : list val) : option val :=
+  let '(l, small_year) := toks_of_items items in
+  let year_ok :=
+    if small_year then
+      match sval_of kind v with
+      | Some sv => match sv_dn sv with
+                   | Some dn => (0 <=? year_of_dn dn) && (year_of_dn dn <=? 9999)
+                   | None => false end
+      | None => false
+      end
+    else true in
+  if year_ok then claim_toks kind v l [] else None.
 
 (* a tail after which nothing of the format can continue reading *)
 Definition tail_ok (tail : bytes) : bool :=
@@ -265,6 +327,31 @@ Definition judge (op : bytes) (args : list val) (out : val) : verdict :=
           match out with
           | VPanic => JBad B"panic"
           | VTup [v; again] => judge_rt kind v f again
+          | _ => JSkip
+          end
+        else JSkip
+    | _ => JSkip
+    end
+  else if op_is op "fp.irt" then
+    match args with
+    | [VInt kind; v; VTup items] =>
+        match claim_items kind v items with
+        | Some e => judge_eq e out
+        | None => JSkip
+        end
+    | _ => JSkip
+    end
+  else if op_is op "fp.iparse" then
+    match args with
+    | [VInt kind; VStr text; VTup items] =>
+        if utf8_ok text && (0 <=? kind) && (kind <=? 3) then
+          match out with
+          | VPanic => JBad B"panic"
+          | VTup [v; again] =>
+              match claim_items kind v items with
+              | Some e => judge_eq e again
+              | None => JSkip
+              end
           | _ => JSkip
           end
         else JSkip
